@@ -87,6 +87,8 @@ def file_bytes(fid: int, utf8_ok: bool, size: int) -> bytes:
     data = sentinel(fid).encode()
     if not utf8_ok:
         data += b"\xff\xfe"
+    # the second line is a gemtext heading that names the file again: whatever quotes "the title" of a file quotes its sentinel
+    data += b"\n# " + sentinel(fid).encode() + b" title\n"
     if len(data) < size:
         data += b"x" * (size - len(data))
     return data
